@@ -596,6 +596,8 @@ def perturb(rng, d, k):
         ops += ["cooling_subset"]
     if n.get("elements"):
         ops += ["elements_order"]
+    if n.get("pseudo_elements"):
+        ops += ["pseudo_variant"]
     op = rng.choice(ops)
     files = t.get("files", {})
     if op == "coefficient" and files:
@@ -645,6 +647,8 @@ def perturb(rng, d, k):
         n["cooling"] = n["cooling"][:-1] or n["cooling"]
     elif op == "elements_order":
         n["elements"] = list(reversed(n["elements"]))
+    elif op == "pseudo_variant":
+        n["pseudo_elements"] = n["pseudo_elements"] + [rng.choice(["XRAY", "M", "g", "X"])]
     elif op == "elements_extra":
         if n.get("elements"):
             n["elements"] = n["elements"] + [rng.choice(["S", "Si", "Mg", "Fe", "Cl"])]
